@@ -65,12 +65,29 @@ def showFiredSet (l : List (Bytes × Int)) : String := showFired (sortFired l)
 def withSpec (kf model spec : String) : String :=
   if model == spec then model else s!"{model} #spec {spec} #kf {kf}"
 
-/-- the situation of finding D51 (and only that): a timer before 1970 is stored, or is still pending in the specification
-(the code orders timers by the bytes of `uint64(UnixNano)`, so it fires such a timer late). Any other deviation of the
-model from the specification keeps the unlisted label and is reported as a violation. -/
-def kfLabel (st : St) : String :=
-  if st.spec.pending.any (fun p => p.2 < 0) || st.reg.store.timerKeys.any (fun k => (timerOf k).2 < 0) then "D51"
+/-- timestamps an `int64` of nanoseconds can hold; outside, `time.Time.UnixNano` is undefined ("The result is undefined if
+the Unix time in nanoseconds cannot be represented by an int64 (a date before the year 1678 or after 2262)"), so
+such timers are outside the property: the driver and the harness answer `outofrange` and do nothing -/
+def inRange (t : Int) : Bool := decide (-9223372036854775808 ≤ t) && decide (t < 9223372036854775808)
+
+def listDiff (a b : List (Bytes × Int)) : List (Bytes × Int) := a.filter fun x => !b.contains x
+
+/-- the situation of finding D51, and only that: a timer before 1970 is ordered after the later ones (keys carry
+`uint64(UnixNano)`), so what the code fires / stores / reports as earliest differs from the specification **only in
+timers before 1970** (fired late, or in the wrong order). `m` and `s` are the timers the two sides fired (or store, or
+report as earliest) in this operation. Any other deviation keeps the unlisted label and is reported as a violation. -/
+def kfLabelFor (m s : List (Bytes × Int)) : String :=
+  let d := listDiff m s ++ listDiff s m
+  if (!d.isEmpty && d.all fun p => decide (p.2 < 0)) || (d.isEmpty && (m.any fun p => decide (p.2 < 0))) then "D51"
   else "spec-deviation"
+
+def kfEarliest (m s : List (Bytes × Int)) : String :=
+  if (m ++ s).any (fun p => decide (p.2 < 0)) then "D51" else "spec-deviation"
+
+def specEarliestTimer (sp : Spec) : List (Bytes × Int) :=
+  match sp.pending with
+  | [] => []
+  | p :: ps => [ps.foldl (fun m q => if q.2 < m.2 then q else m) p]
 
 def specEarliest (sp : Spec) : String :=
   match sp.pending with
@@ -80,10 +97,12 @@ def specEarliest (sp : Spec) : String :=
 def step (st : St) : List String → St × String
   | ["set", k, t] =>
     let key := hexOr k
+    if !inRange (intOr t) then (st, "outofrange") else
     if !st.reg.store.owns key then (st, "notowned") else
     ({ st with reg := st.reg.setTimer key (intOr t), spec := st.spec.setTimer key (intOr t) }, "ok")
   | ["put", k, t] =>
     let key := hexOr k
+    if !inRange (intOr t) then (st, "outofrange") else
     if !st.reg.store.owns key then (st, "notowned") else
     let p := (key, intOr t)
     ({ st with reg := { st.reg with store := st.reg.store.put key (intOr t) },
@@ -92,12 +111,15 @@ def step (st : St) : List String → St × String
     let r := st.reg.advance s!"sr{natOr i}" (intOr wm)
     let sp := st.spec.advance s!"sr{natOr i}" (intOr wm)
     ({ st with reg := r.1, spec := sp.1 },
-      withSpec (kfLabel st) s!"c={r.1.wm} f={showFired r.2}" s!"c={sp.1.wm} f={showFiredSet sp.2}")
+      withSpec (kfLabelFor r.2 sp.2) s!"c={r.1.wm} f={showFired r.2}" s!"c={sp.1.wm} f={showFiredSet sp.2}")
   | ["earliest"] =>
     match st.reg.store.earliest with
-    | none => (st, withSpec (kfLabel st) "none" (specEarliest st.spec))
-    | some k => (st, withSpec (kfLabel st) s!"t={(timerOf k).2}" (specEarliest st.spec))
-  | ["dbcount"] => (st, withSpec (kfLabel st) (toString st.reg.store.timerKeys.length) (toString st.spec.pending.length))
+    -- D51 at `GetEarliest`: one side's earliest timer is before 1970 (the code ranks it last, or still holds it)
+    | none => (st, withSpec (kfEarliest [] (specEarliestTimer st.spec)) "none" (specEarliest st.spec))
+    | some k => (st, withSpec (kfEarliest [timerOf k] (specEarliestTimer st.spec)) s!"t={(timerOf k).2}" (specEarliest st.spec))
+  | ["dbcount"] =>
+    (st, withSpec (kfLabelFor (st.reg.store.timerKeys.map timerOf) st.spec.pending)
+      (toString st.reg.store.timerKeys.length) (toString st.spec.pending.length))
   | ["ckpt"] => ({ st with ckpt := some st.reg.store.db, specCkpt := some st.spec.pending }, "ok")
   | ["restore"] =>
     match st.ckpt with
